@@ -188,3 +188,22 @@ def c11():
                   "projection must equal the spec state and every later step on it must conform (reacts identically). Keys: plain and hostile (quotes, brackets, "
                   "text containing the container label, unicode, ints, floats, tuples). non-trivial = non-empty triggered set",
                   plans, tags=["C11"], keys=keys, modes=modes, hashseeds=hs, queries=False)
+
+
+@prop("C20")
+def c20():
+    if _q():
+        plans = [dict(universe=u, variant="core", depth=2, emitidx=False) for u in U] + \
+                [dict(universe=u, variant="xfer_extras", depth=7, simulate=25, emitidx=False, fan_keep=0.1) for u in U]
+        hs, keys = (0, 1, 2), ("plain",)
+    else:
+        plans = [dict(universe=u, variant="xfer_extras", depth=3, emitidx=False) for u in U] + \
+                [dict(universe=u, variant="xfer_extras", depth=10, simulate=800, emitidx=False) for u in U]
+        hs, keys = tuple(range(16)), ("plain", "hostile")
+    return me.run("C20", "exploration",
+                  "the same TLC-generated programs (every transition of Manager.tla to the stated depth plus simulated behaviours, incl. unregister / freeze / refresh / "
+                  "clone / pickle / dump+load / copy_expr_from / gen_fun steps) are executed under {compiled from the working tree, pure Python} x PYTHONHASHSEED values; "
+                  "per step the canonical transcript (exception class, container contents, dump() text) is digested and must be identical in every configuration. "
+                  "non-trivial = transition whose triggered task set is non-empty",
+                  plans, tags=["C20"], keys=keys, modes=("compiled", "pure"), hashseeds=hs, queries=False, cross_config=True,
+                  extra_assume=("fault-injection plans are not part of the corpus: 'the k-th write' is not the same program under two legal task orders",))
